@@ -232,3 +232,25 @@ def _truetype_cmap(model: Model, rep: Report) -> None:
     s_ = "".join(unparse(f.node).split())
     r11.check("struct.unpack('>%dh'%segcount,fp.read(2*segcount))" in s_, site(f), f.qualname, "idDelta is unpacked as signed 16-bit values", why="idDelta format changed")
     r11.check("forchar,gidinchar2gid.items():unicode_map.add_cid2unichr(gid,char)" in s_.replace("for(char,gid)in", "forchar,gidin"), site(f), f.qualname, "the Unicode map sends each glyph id back to its character code", why="inverse map changed")
+
+
+def _vx_absent(model: Model, rep: Report) -> None:
+    """C07-R15: the default position vector (half the glyph width, here fontsize/2) stands in only for a CID that W2 does not
+    list - `None` from char_disp.  A listed x component of 0 is a value: a truth test replaces it by fontsize/2 and the glyph
+    moves half an em."""
+    r = rep.rule("C07-R15", "GUARD", "LTChar places a vertical glyph with the default x displacement only when the font gave none (`vx is None`), never on a truth test (vx = 0 is a displacement)", 1)
+    f = model.func("pdfminer.layout.LTChar.__init__")
+    tests = [n.test for n in walk_no_nested(f.node) if isinstance(n, (ast.If, ast.IfExp)) and any(isinstance(x, ast.Name) and x.id == "vx" for x in ast.walk(n.test))]
+    if not tests:
+        raise AnchorMissing("LTChar.__init__: no test of vx")
+    for t in tests:
+        s = "".join(unparse(t).split())
+        r.check(s in ("vxisNone", "vxisnotNone"), site(f, t), f.qualname, f"test `{unparse(t)}`", why="the test is true for vx == 0 as well: a CID whose W2 entry has the position vector x = 0 is placed as if it had none")
+
+
+_run_r1_r14 = run
+
+
+def run(model: Model, rep: Report) -> None:  # noqa: F811
+    _run_r1_r14(model, rep)
+    _vx_absent(model, rep)
